@@ -667,6 +667,21 @@ theorem upb_feng4x4_Orthonormal : Orthonormal 8 (4 * 4) feng4x4W :=
 theorem upb_feng2x2x2x2_Orthonormal : Orthonormal 6 (2 * (2 * (2 * 2))) feng2x2x2x2W :=
   orthonormal_of_local4 6 2 2 2 2 (by norm_num) (by norm_num) (by norm_num) _ _ _ _ (fun a ha b hb => feng2x2x2x2_local a b ha hb)
 
+noncomputable def min4x4W : ℕ → ℕ → ℂ :=
+  prodVec 4 (fun a t => (zrowVec min4x4A a t : ℂ)) (fun a t => (zrowVec min4x4B a t : ℂ))
+
+/-- **`min4x4`: eight orthonormal product vectors in `4 × 4`** — the exact `ℤ[√2]` arithmetic is transported to ℝ by the ring
+homomorphism `a + b√2 ↦ a + b·√2` (`Z2.val_add`, `Z2.val_mul`), so here the kernel-evaluated test *is* proved sound -/
+theorem upb_min4x4_Orthonormal : Orthonormal 8 (4 * 4) min4x4W :=
+  orthonormal_of_local2 8 4 4 (by norm_num) _ _ (fun a ha b hb => min4x4_local a b ha hb)
+
+theorem upb_min4x4_bes (x : ℕ → ℂ) :
+    (∑ r ∈ Finset.range (4 * 4), upbCompl 8 min4x4W r r = ((4 * 4 : ℕ) : ℂ) - (8 : ℕ))
+    ∧ 0 ≤ (hform (4 * 4) (upbCompl 8 min4x4W) x).re ∧ 0 ≤ (hform (4 * 4) (ptB 4 (upbCompl 8 min4x4W)) x).re :=
+  ⟨(upb_bes_projector 8 (4 * 4) min4x4W upb_min4x4_Orthonormal).2.2.1,
+   ((upb_bes_projector 8 (4 * 4) min4x4W upb_min4x4_Orthonormal).2.2.2 x).1,
+   (upb_bes_ppt 8 4 4 (by norm_num) _ _ upb_min4x4_Orthonormal x).1⟩
+
 /-- hence **the bound entangled state of `tiles` is a PSD projector of trace `9 − 5` and is PPT** (same for the other two tables,
 for `feng2x2x2x2` across the cut `A | BCD`) -/
 theorem upb_tiles_bes (x : ℕ → ℂ) :
